@@ -1,14 +1,423 @@
-"""Engine V placeholder (filled in below)."""
-from common import Undecided
+"""Engine V: Verus on functions extracted mechanically from /repo on every run.
+
+A unit module (/verif/verus/<unit>.py) exposes
+    NAME, FUNCTIONS (names under contract), KIND ("proof"), build(reader) -> Built
+where Built carries the assembled single-file Verus program, the list of edits applied to the
+copied text (closed list D1..D5, counted) and the mapping from generated lines to obligation
+labels.  The engine runs `verus <file> --output-json --time`, turns every Verus *verdict*
+("postcondition not satisfied", "assertion failed", "precondition not satisfied", "invariant not
+satisfied...", "decreases not satisfied") into a failed obligation, and everything else
+(rlimit, parse/type error of the extracted text, lost anchor) into Undecided."""
+import importlib
+import json
+import os
+import re
+import sys
+import time
+
+from common import REPO, SCRATCH, VERIF, Undecided, log, run, build_real_binary, run_script, sync_work
+import extract
+
+VERUS_DIR = os.path.join(VERIF, "verus")
+sys.path.insert(0, VERUS_DIR)
+
+VERDICTS = (
+    "postcondition not satisfied",
+    "assertion failed",
+    "precondition not satisfied",
+    "invariant not satisfied at end of loop body",
+    "invariant not satisfied before loop",
+    "loop invariant not satisfied",
+    "decreases not satisfied",
+    "possible arithmetic underflow/overflow",
+    "possible division by zero",
+    "recommendation not met",
+    "could not prove termination",
+    "index out of bounds",
+    "failed precondition",
+)
+UNDECIDED_MARKERS = ("Resource limit (rlimit) exceeded", "resource limit", "Verus Internal Error", "panicked at")
 
 
-def run_unit(u, tier):
-    raise Undecided("engine V not built yet")
+class VUnit:
+    def __init__(self, name, module, functions, kind="proof", bound=None, thorough_only=False):
+        self.name = name
+        self.module = module
+        self.functions = functions
+        self.kind = kind
+        self.bound = bound
+        self.thorough_only = thorough_only
+
+    def mod(self):
+        m = importlib.import_module(self.module)
+        return m
+
+
+class Reader:
+    """Reads files of /repo's working tree; remembers what was read (for evidence)."""
+    def __init__(self):
+        self.files = {}
+
+    def __call__(self, rel):
+        p = os.path.join(REPO, rel)
+        if not os.path.isfile(p):
+            raise Undecided(f"anchor file {rel} not found in /repo")
+        s = open(p).read()
+        self.files[rel] = s
+        return s
+
+
+class Built:
+    def __init__(self):
+        self.text = ""
+        self.edits = []       # human-readable list of every edit applied to copied text
+        self.copied = []      # (kind, name, file, line) of verbatim-copied items
+        self.assumed = []     # external_body contracts etc. (also mechanically scanned)
+        self.dropped = []     # text dropped from the verified program
+
+
+def gen_clone_impls(type_names):
+    """D1: #[derive(Clone)] replaced by an assumed structural Clone."""
+    out = []
+    for t in type_names:
+        out.append(f"impl Clone for {t} {{\n    #[verifier::external_body]\n"
+                   f"    fn clone(&self) -> (r: Self) ensures r == *self {{ unimplemented!() }}\n}}\n")
+    return "".join(out)
+
+
+def parse_enum_variants(enum_text):
+    """[(variant, [(field, type)])] of a struct-like/unit enum (as in eval/error.rs)."""
+    a = enum_text.index("{")
+    b = extract.match_brace(enum_text, a)
+    body = enum_text[a + 1:b]
+    variants = []
+    i = 0
+    code = body
+    # split at top-level commas
+    depth = 0
+    cur = []
+    parts = []
+    for idx, c in extract.code_positions(code):
+        pass
+    # simple state machine over characters (attributes/comments were stripped before)
+    for c in code:
+        if c in "{(<[":
+            depth += 1
+        elif c in "})>]":
+            depth -= 1
+        if c == "," and depth == 0:
+            parts.append("".join(cur))
+            cur = []
+        else:
+            cur.append(c)
+    if "".join(cur).strip():
+        parts.append("".join(cur))
+    for p in parts:
+        p = p.strip()
+        if not p:
+            continue
+        m = re.match(r"([A-Za-z0-9_]+)\s*(\{(.*)\})?\s*$", p, re.S)
+        if not m:
+            raise Undecided(f"cannot parse enum variant: {p[:60]!r}")
+        name = m.group(1)
+        fields = []
+        if m.group(3):
+            d = 0
+            cur = []
+            fparts = []
+            for c in m.group(3):
+                if c in "{(<[":
+                    d += 1
+                elif c in "})>]":
+                    d -= 1
+                if c == "," and d == 0:
+                    fparts.append("".join(cur))
+                    cur = []
+                else:
+                    cur.append(c)
+            if "".join(cur).strip():
+                fparts.append("".join(cur))
+            for fp in fparts:
+                fp = fp.strip()
+                if not fp:
+                    continue
+                fn, ft = fp.split(":", 1)
+                fields.append((fn.strip(), " ".join(ft.split())))
+        variants.append((name, fields))
+    return variants
+
+
+def gen_selectors(variants, needed):
+    """D4: snafu context selectors.  For each variant with a `source: Box<Error>` field that is used
+    as `.context(Sel ...)` in the unit, a selector struct with the remaining fields and a spec `wrap`
+    that builds exactly that variant (what snafu's derive generates)."""
+    out = []
+    byname = dict(variants)
+    for n in needed:
+        if n not in byname:
+            raise Undecided(f"context selector {n} has no variant in enum Error")
+        fields = byname[n]
+        src = [f for f in fields if f[0] == "source"]
+        if not src or src[0][1] != "Box<Error>":
+            raise Undecided(f"selector {n}: variant has no `source: Box<Error>`")
+        rest = [f for f in fields if f[0] != "source"]
+        if rest:
+            decl = "pub struct %s { %s }\n" % (n, ", ".join(f"pub {a}: {b}" for a, b in rest))
+            build = ", ".join(f"{a}: self.{a}" for a, _ in rest)
+            out.append(decl + f"impl Selector for {n} {{ open spec fn wrap(self, e: Error) -> Error "
+                       f"{{ Error::{n}{{source: Box::new(e), {build}}} }} }}\n")
+        else:
+            out.append(f"pub struct {n};\nimpl Selector for {n} {{ open spec fn wrap(self, e: Error) -> Error "
+                       f"{{ Error::{n}{{source: Box::new(e)}} }} }}\n")
+    return "".join(out)
+
+
+SELECTOR_PRELUDE = """
+// D4: snafu's `.context(Selector)` on a Result: Ok stays Ok with the same value; Err(e) becomes
+// Err(<variant named like the selector>{source: Box::new(e), ..selector fields}).
+pub trait Selector: Sized {
+    spec fn wrap(self, e: Error) -> Error;
+}
+pub trait ResultExt<T>: Sized {
+    spec fn view_res(self) -> Result<T>;
+    fn context<S: Selector>(self, s: S) -> (r: Result<T>)
+        ensures
+            match self.view_res() { Ok(v) => r == Ok::<T, Error>(v), Err(e) => r == Err::<T, Error>(s.wrap(e)) };
+}
+impl<T> ResultExt<T> for Result<T> {
+    open spec fn view_res(self) -> Result<T> { self }
+    #[verifier::external_body]
+    fn context<S: Selector>(self, s: S) -> (r: Result<T>) { unimplemented!() }
+}
+"""
+
+
+def desugar_for(body, k, it_name="__it"):
+    """D5: the k-th loop of `body`, a `for PAT in EXPR {`, is replaced by Rust's own desugaring
+         let mut __it = (EXPR).into_iter(); loop { let PAT = match __it.next() { Some(__x) => __x, None => break }; ...
+       (Verus' native `for` supports neither `continue` nor a ghost position).  Returns new body.
+       The loop keeps its ordinal k (it is now a `loop`)."""
+    loops = extract.find_loops(body)
+    if k < 1 or k > len(loops):
+        raise Undecided(f"desugar_for: loop #{k} not found")
+    kw, start, brace = loops[k - 1]
+    if kw != "for":
+        raise Undecided(f"desugar_for: loop #{k} is `{kw}`, not `for`")
+    hdr = body[start:brace]
+    # split at the `in` keyword that is outside the pattern's braces/parens
+    depth = 0
+    cut = None
+    for off, c in extract.code_positions(hdr):
+        if off < 3:
+            continue
+        if c in "([{":
+            depth += 1
+        elif c in ")]}":
+            depth -= 1
+        elif depth == 0 and re.match(r"in\b", hdr[off:]) and hdr[off - 1].isspace():
+            cut = off
+            break
+    if cut is None:
+        raise Undecided("desugar_for: cannot split header")
+    pat, expr = hdr[3:cut].strip(), hdr[cut + 2:].strip()
+    new_hdr = (f"let mut {it_name} = ({expr}).into_iter();\n"
+               f"loop {{\n let {pat} = match {it_name}.next() {{ Some(__x) => __x, None => break }};\n")
+    return body[:start] + new_hdr + body[brace + 1:]
+
+
+def assemble(parts):
+    return "\n".join(p.rstrip("\n") + "\n" for p in parts if p)
+
+
+def label_map(text):
+    """line number -> label for lines carrying `// [label]`."""
+    m = {}
+    for i, line in enumerate(text.splitlines(), 1):
+        mm = re.search(r"//\s*\[([A-Za-z0-9_.:<>/-]+)\]", line)
+        if mm:
+            m[i] = mm.group(1)
+    return m
+
+
+def fn_at_line(text, line):
+    """Name of the fn item enclosing generated line `line` (scan backwards for `fn name`)."""
+    lines = text.splitlines()
+    for i in range(min(line, len(lines)) - 1, -1, -1):
+        mm = re.match(r"\s*(pub\s+)?(proof\s+|exec\s+|open\s+spec\s+|closed\s+spec\s+|spec\s+)?fn\s+([A-Za-z0-9_]+)", lines[i])
+        if mm:
+            return mm.group(3)
+    return "?"
+
+
+def parse_verus_errors(stderr, text):
+    """Return (failures, hard_errors).  failures: [{kind, fn, label, line, snippet}]"""
+    failures = []
+    hard = []
+    labels = label_map(text)
+    blocks = re.split(r"\n(?=error)", "\n" + stderr)
+    for b in blocks:
+        b = b.strip("\n")
+        if not b.startswith("error"):
+            continue
+        first = b.splitlines()[0]
+        msg = first.split(":", 1)[1].strip() if ":" in first else first
+        if msg.startswith("aborting due to"):
+            continue
+        locs = [int(x) for x in re.findall(r"-->\s*[^\s:]+:(\d+):\d+", b)]
+        # lines shown in the snippet with a marker
+        snippet_lines = [(int(a), t) for a, t in re.findall(r"\n\s*(\d+)\s*\|(.*)", b)]
+        is_verdict = any(msg.startswith(v) for v in VERDICTS)
+        if not is_verdict:
+            hard.append(b[:1500])
+            continue
+        label = None
+        for ln, _t in snippet_lines:
+            if ln in labels:
+                label = labels[ln]
+                break
+        line = locs[0] if locs else (snippet_lines[0][0] if snippet_lines else 0)
+        failures.append({"kind": msg, "fn": fn_at_line(text, line), "label": label, "line": line,
+                         "snippet": "\n".join(b.splitlines()[:14])})
+    return failures, hard
 
 
 def scan_assumptions(u):
-    return []
+    """Mechanical scan of the last generated file of this unit for assume/admit/external_body."""
+    p = os.path.join(SCRATCH, "verus", u.name + ".rs")
+    out = []
+    if not os.path.isfile(p):
+        return out
+    lines = open(p).read().splitlines()
+    n_ext = 0
+    for i, line in enumerate(lines):
+        s = line.strip()
+        if s.startswith("//"):
+            continue
+        if "external_body" in s or "external_type_specification" in s or "assume_specification" in s:
+            n_ext += 1
+            # name of the item that follows
+            name = "?"
+            for j in range(i + 1, min(i + 6, len(lines))):
+                mm = re.search(r"\b(fn|struct|enum)\s+([A-Za-z0-9_]+)", lines[j])
+                if mm:
+                    name = mm.group(1) + " " + mm.group(2)
+                    break
+            out.append(f"verus/{u.name}: {s} on {name} (assumed contract / opaque item)")
+        if re.search(r"\b(assume|admit)\s*\(", s):
+            out.append(f"verus/{u.name}:{i+1}: {s}")
+        if "uninterp spec fn" in s:
+            out.append(f"verus/{u.name}: {s.rstrip('; ')} (uninterpreted: holds for every interpretation)")
+    return out
+
+
+def run_unit(u, tier):
+    mod = u.mod()
+    importlib.reload(mod)
+    reader = Reader()
+    built = mod.build(reader)
+    d = os.path.join(SCRATCH, "verus")
+    os.makedirs(d, exist_ok=True)
+    path = os.path.join(d, u.name + ".rs")
+    with open(path, "w") as f:
+        f.write(built.text)
+    rlimit = getattr(mod, "RLIMIT", 60)
+    cmd = ["verus", path, "--output-json", "--time", "--multiple-errors", "20", "--rlimit", str(rlimit)]
+    t0 = time.time()
+    rc, out, secs, to = run_split(cmd, timeout=getattr(mod, "TIMEOUT", 900))
+    stdout, stderr = out
+    if to:
+        raise Undecided(f"verus timed out after {secs:.0f}s")
+    try:
+        js = json.loads(stdout[stdout.index("{"):])
+    except Exception:
+        raise Undecided("verus produced no JSON result:\n" + (stderr or stdout)[-3000:])
+    vr = js.get("verification-results", {})
+    failures, hard = parse_verus_errors(stderr, built.text)
+    smt = (((js.get("times-ms") or {}).get("smt")) or {})
+    fn_times = []
+    for m in smt.get("smt-run-module-times", []) or []:
+        for fb in m.get("function-breakdown", []) or []:
+            fn_times.append({"function": fb.get("function"), "mode": fb.get("mode:"), "ms": fb.get("time"),
+                             "success": fb.get("success")})
+    ur = {"unit": u.name, "engine": "verus", "backend": "Verus 0.2026.09.13 / Z3 (bundled)", "kind": u.kind,
+          "bound": u.bound, "functions": u.functions, "failed": [], "vunit": u,
+          "obligations": int(vr.get("verified", 0)) + int(vr.get("errors", 0)),
+          "discharged": int(vr.get("verified", 0)),
+          "solver_s": round((smt.get("smt-run") or 0) / 1000.0, 3), "wall_s": round(secs, 2),
+          "named_clauses": sorted(set(label_map(built.text).values())),
+          "edits": built.edits, "copied": built.copied, "dropped": built.dropped,
+          "fn_times": fn_times, "generated_file": path}
+    if vr.get("encountered-vir-error") or (hard and not failures) or (vr.get("encountered-error") and not failures):
+        ur["status"] = "undecided"
+        ur["why"] = "extracted text rejected by Verus (unsupported construct / type error) or tool error:\n" + \
+                    ("\n".join(hard) or stderr[-2000:])
+        return ur
+    if any(mk in stderr for mk in UNDECIDED_MARKERS):
+        ur["status"] = "undecided"
+        ur["why"] = "rlimit / tool limit:\n" + stderr[-1500:]
+        if not failures:
+            return ur
+    for f in failures:
+        lab = f["label"] or f["kind"]
+        ur["failed"].append({"obligation": f"{u.name}/{f['fn']}:{lab}", "detail": f})
+    ur["all_failed"] = list(ur["failed"])
+    if failures:
+        ur["status"] = "failed"
+    elif vr.get("success") and int(vr.get("errors", 0)) == 0:
+        ur["status"] = "ok"
+        if ur["obligations"] == 0:
+            ur["status"] = "undecided"
+            ur["why"] = "zero obligations"
+    else:
+        ur["status"] = "undecided"
+        ur["why"] = "verus did not report success:\n" + stderr[-1500:]
+    return ur
+
+
+def run_split(cmd, timeout):
+    import subprocess
+    t0 = time.time()
+    try:
+        p = subprocess.run(cmd, capture_output=True, timeout=timeout)
+        return p.returncode, (p.stdout.decode("utf-8", "replace"), p.stderr.decode("utf-8", "replace")), time.time() - t0, False
+    except subprocess.TimeoutExpired as e:
+        return -9, ((e.stdout or b"").decode("utf-8", "replace"), (e.stderr or b"").decode("utf-8", "replace")), time.time() - t0, True
+    except FileNotFoundError as e:
+        raise Undecided(f"verus not found: {e}")
 
 
 def replay_failure(pid, u, ur, fs):
-    return "", False
+    """Verus gives no counterexample: run the unit's paired replay generator (scripts derived from
+    the contract's case split) on the real binary; first script contradicting the property is the replay."""
+    mod = u.mod()
+    lines = [f"property: {pid}", f"unit: Verus unit {u.name} (contracts /verif/verus/{u.module}.py; generated {ur.get('generated_file')})",
+             f"functions under contract: {', '.join(u.functions)}", "failed obligations:"]
+    for f in fs:
+        lines.append(f"  - {f['obligation']}  [{f['detail']['kind']}]")
+    lines.append("--- verifier output ---")
+    for f in fs:
+        lines.append(f["detail"]["snippet"])
+    reproduced = False
+    gen = getattr(mod, "replays", None)
+    if gen:
+        try:
+            sync_work({})
+            binary = build_real_binary()
+            for title, script, judge in gen([f["obligation"] for f in fs]):
+                rc, so, se = run_script(binary, script)
+                verdict = judge(rc, so, se)
+                if verdict:
+                    lines.append(f"replay candidate `{title}` (run on the real binary built from /repo's working tree):")
+                    for l in script.splitlines():
+                        lines.append("    | " + l)
+                    lines.append(f"  exit status: {rc}")
+                    lines.append(f"  stdout: {so!r}")
+                    lines.append(f"  stderr: {se[:600]!r}")
+                    lines.append(f"  REPRODUCED on the real binary: {verdict}")
+                    reproduced = True
+                    break
+        except Undecided as e:
+            lines.append(f"replay generator could not run: {e}")
+    if not reproduced:
+        lines.append("no-failing-input-found: none of the paired replay scripts contradicts the property on the real binary")
+    return "\n".join(lines) + "\n", reproduced
